@@ -273,3 +273,56 @@ mod tests {
         assert_eq!(arr.get(&[0, 0, 2]), Err(InterpreterError::BadSubscript));
     }
 }
+
+#[cfg(abasic_verif)]
+impl Arrays {
+    /// Canonical text, sorted by name: `name[dims]#cells{index=value,...}`
+    /// listing only the cells that differ from the default value.
+    pub(crate) fn verif_snapshot(&self) -> String {
+        let mut items = self
+            .0
+            .iter()
+            .map(|(name, array)| {
+                let (kind, dimensions, count, cells) = match array {
+                    ValueArray::String(a) => (
+                        "S",
+                        &a.dimensions,
+                        a.values.len(),
+                        a.values
+                            .iter()
+                            .enumerate()
+                            .filter(|(_, v)| !v.is_empty())
+                            .map(|(i, v)| format!("{}=S{}", i, crate::verif::esc(v)))
+                            .collect::<Vec<_>>(),
+                    ),
+                    ValueArray::Number(a) => (
+                        "N",
+                        &a.dimensions,
+                        a.values.len(),
+                        a.values
+                            .iter()
+                            .enumerate()
+                            .filter(|(_, v)| crate::verif::bits(**v) != 0)
+                            .map(|(i, v)| format!("{}=N{:016x}", i, crate::verif::bits(*v)))
+                            .collect::<Vec<_>>(),
+                    ),
+                };
+                let dimensions = dimensions
+                    .iter()
+                    .map(|d| d.to_string())
+                    .collect::<Vec<_>>()
+                    .join(".");
+                format!(
+                    "{}{}[{}]#{}{{{}}}",
+                    kind,
+                    crate::verif::esc(name.as_str()),
+                    dimensions,
+                    count,
+                    cells.join(",")
+                )
+            })
+            .collect::<Vec<_>>();
+        items.sort();
+        items.join(";")
+    }
+}
